@@ -378,6 +378,10 @@ def case_form_api(ctx, kind, sym=False, parallel=False):
         exp = IntegralFormCartesian(A, u, region.dV, u=u, grad_v=True, grad_u=True).assemble()
         ctx.equal("bilinear_form_equals_array_form", dense(ctx, got), dense(ctx, exp))
         ctx.equal("bilinear_form_is_defining_sum", dense(ctx, got), oracle_bilinear(ctx, u, u, np.asarray(A), region.dV, True, True))
+        # the same Form assembled again with OTHER values for the same keyword: the new values count
+        A2 = ctx.array("A2", (2, 2, 2, 2, nq, nc), -1, 1) if not sym else np.einsum("iJqc,kLqc->iJkLqc", ctx.array("B2", (2, 2, nq, nc), -1, 1), ctx.array("B2", (2, 2, nq, nc), -1, 1))
+        got2 = a.assemble(v=cont, u=cont, kwargs={"A": A2}, parallel=parallel, sym=sym)
+        ctx.equal("reassembled_form_uses_the_new_keyword_values", dense(ctx, got2), oracle_bilinear(ctx, u, u, np.asarray(A2), region.dV, True, True))
 
 
 def case_form_api_mixed(ctx, sym=False, parallel=False):
